@@ -403,6 +403,33 @@ func (w *pworld) exec(f []string) string {
 			}
 		}
 		return "ok"
+	case f[0] == "lrestart":
+		// every local allocator steps down at once (ResetAllocatorGroup) and is re-elected on this server: its
+		// memory is rebuilt from its persisted window and the cluster's largest local timestamp
+		for _, dc := range w.dcs {
+			am.ResetAllocatorGroup(dc)
+		}
+		deadline := time.Now().Add(30 * time.Second)
+		for {
+			ok := true
+			for _, dc := range w.dcs {
+				a, err := am.GetAllocator(dc)
+				if err != nil || !a.IsInitialize() {
+					ok = false
+					continue
+				}
+				if l, ok2 := a.(*tso.LocalTSOAllocator); !ok2 || !l.IsAllocatorLeader() {
+					ok = false
+				}
+			}
+			if ok {
+				return "ok"
+			}
+			if time.Now().After(deadline) {
+				return "err-timeout"
+			}
+			time.Sleep(50 * time.Millisecond)
+		}
 	case f[0] == "req" && len(f) == 3: // allocator (0 global / dc number), count
 		g := w.request(int(atoi(f[1])), uint32(atoi(f[2])))
 		if g.err != "" {
@@ -523,7 +550,7 @@ func main() {
 			o = fmt.Sprintf("%d", tso.VerifDifferentiate(a, b, c))
 		case "sreset", "dcjoin", "dcleave", "slead", "checker", "gchecker", "sfinish":
 			o = sw.exec(f) + " " + sw.table()
-		case "pinit", "req", "setts", "burst", "bigreq":
+		case "pinit", "req", "setts", "burst", "bigreq", "lrestart":
 			p := getPW()
 			o = p.exec(f)
 			if f[0] != "burst" && f[0] != "bigreq" {
